@@ -67,9 +67,9 @@ NOTES = {
              'nested / static async methods and a module-level async def',
     'C10r3': 'missed at first (sys.path order always alphabetical, clashes across roots rare); caught after the reversed root '
              'order shape in Imports.tla and mirrored nodes across the roots in the random trees',
-    'C17r3': 'the signature time-cache key made comparable again (as C08 / C11 round 1): not seen by the C17 check (its '
-             'histories ask get_names / imports / search, not signatures at one call site), caught by the C08 and C11 checks, '
-             'the properties the mechanism belongs to',
+    'C17r3': 'the signature time-cache key made comparable again (as C08 / C11 round 1): missed by the C17 check at first (its '
+             'histories asked get_names / imports / search, not signatures at one call site) while the C08 and C11 checks caught '
+             'it; C17 now has buffer histories with get_signatures after every edit, judged by Trace_SigFaithful.tla',
     'C20r2': 'same aliasing as C09 (round 1); caught by the path clauses; the settings-unchanged-by-use clauses (p2 / rt2) '
              'were added as well',
 }
